@@ -23,7 +23,7 @@ func VerifC08History() {
 	vUnwind(100000)
 	meta := newVStore("meta")
 	vmeta := newVStore("vmeta")
-	stores := vCtxStoresAll(meta, vmeta, newVStore("blob"))
+	stores := vCtxStoresKind(meta, vmeta, newVStore("blob"), vChoose("storeWithCRC", 2) == 1)
 	repos := []string{"r", "r2"}
 	labels := []string{"v1", "v1-rc"}
 	bundles := []string{vB1, vB2}
